@@ -69,6 +69,24 @@ class C03(FMonitor):
         if gen != len(led.items):
             led.V("C03", "generated=sum-of-places", "sources report %d generated items, %d flow items exist" % (gen, len(led.items)))
 
+    def on_instant_end(self, led):
+        # an item the ledger places inside a node must still be in the hands of one of that node's processes
+        bynode = collections.defaultdict(list)
+        for it in led.items:
+            l = led.loc[id(it)]
+            if l[0] in ("node", "source"):
+                bynode[l[1]].append(it)
+        for nid, its in bynode.items():
+            n = led.nodes.get(nid)
+            if n is None:
+                continue
+            held = led.held_by_processes(n)
+            for it in its:
+                if id(it) not in held:
+                    led.V("C03", "not-lost-inside-node", "%s was taken by %s and is neither pushed, packed nor counted as discarded, and no process of %s holds it any more (t=%s)"
+                          % (it.id, nid, nid, led.env.now), node=tname(n))
+                    return
+
     def on_finish(self, led, T):
         if led.cfg.get("drains"):
             left = [(it.id, led.loc[id(it)]) for it in led.items if led.loc[id(it)][0] not in ("sink", "discarded")]
